@@ -21,6 +21,8 @@ pub fn rule_sets() -> Vec<(&'static str, Vec<(&'static str, &'static str, &'stat
         ("b-comm", vec![("b-comm", "(b ?x ?y)", "(b ?y ?x)")]),
         ("u-elim", vec![("u-elim", "(u ?x)", "?x")]),
         ("f-comm+u-intro", vec![("f-comm", "(f $a $b)", "(f $b $a)"), ("h-u", "(h $a)", "(u (h $a))")]),
+        // patterns that repeat a slot: must only match nodes that repeat it too
+        ("repeated-slot", vec![("t-repeat", "(t $a $b $a)", "(f $a $b)"), ("b-shared", "(b (f $a $b) (h $a))", "(g $a $b)")]),
     ]
 }
 
@@ -249,7 +251,7 @@ impl Prop for MonoProp {
         vec!["class_merged", "slot_became_redundant", "handle_of_dead_class_used", "handle_slot_set_shrank", "equal_pair_recorded", "symmetric_pair_recorded"]
     }
     fn rule(&self) -> String {
-        "Every sequence (ordered) of the stated length over union/insert operations of the alphabet plus three rewrite-iteration operations (b-comm, u-elim, f-comm+u-intro via apply_rewrites) is executed step by step in one e-graph. After EVERY step the monitor re-checks everything recorded at earlier steps: every invocation ever returned (and the identity invocation of every class that was ever live) can be canonicalised idempotently, is equal to itself, canonicalises to a live class, can be extracted from (and the extracted term looks up to it), its slot set only shrinks; every pair that once compared equal (also up to swapping two slots) still does; the ProgressMeasure moves lexicographically in the documented direction. Non-trivial = step count of executions that completed.".into()
+        "Every sequence (ordered) of the stated length over union/insert operations of the alphabet plus four rewrite-iteration operations (b-comm, u-elim, f-comm+u-intro, repeated-slot patterns, via apply_rewrites) is executed step by step in one e-graph. After EVERY step the monitor re-checks everything recorded at earlier steps: every invocation ever returned (and the identity invocation of every class that was ever live) can be canonicalised idempotently, is equal to itself, canonicalises to a live class, can be extracted from (and the extracted term looks up to it), its slot set only shrinks; every pair that once compared equal (also up to swapping two slots) still does; the ProgressMeasure moves lexicographically in the documented direction. Non-trivial = step count of executions that completed.".into()
     }
     fn assumptions(&self) -> Vec<String> {
         vec!["at most 40 handles are tracked per execution".into()]
